@@ -200,7 +200,7 @@ def validate(ctx, episodes, tag):
 def run(ctx):
     quick = ctx.quick
     rng = np.random.default_rng(ctx.seed)
-    ctx.bounds = {"slots": ALL, "runs": 3, "reads_per_run": 3 if quick else 4, "simulated_behaviours": 120 if quick else 1200,
+    ctx.bounds = {"slots": ALL, "runs": 3, "reads_per_run": 3 if quick else 5, "simulated_behaviours": 120 if quick else 8000,
                   "layouts": ["m", "F (one regularised function list)", "mf", "fm", "mm"], "formalisms": ["mapping", "w_tilde"]}
     reads = ctx.bounds["reads_per_run"]
     for single in (True, False):
